@@ -289,19 +289,26 @@ def replay_files(mod, pid, paths, open_keys, label):
     return n, bad
 
 
+def _outdir(name):
+    """evidence/ and replays/ under /verif; the self-test tools (mutants, seeded changes) redirect both with
+    VERIF_EVIDENCE_DIR so that they never overwrite the evidence of the registered checks."""
+    alt = os.environ.get("VERIF_EVIDENCE_DIR")
+    return os.path.join(alt, name) if alt else os.path.join(HERE, name)
+
+
 def write_replay(pid, bucket, case, detail):
-    d = os.path.join(HERE, "replays")
+    d = _outdir("replays")
     os.makedirs(d, exist_ok=True)
     name = f"{pid}-{hashlib.sha1(bucket.encode()).hexdigest()[:10]}.json"
     path = os.path.join(d, name)
     with open(path, "w") as fh:
         json.dump({"property": pid, "clause": bucket, "violations": [{"clause": bucket, "detail": detail}],
                    "case": case}, fh, indent=1, default=_default, sort_keys=True)
-    return os.path.relpath(path, HERE)
+    return os.path.relpath(path, HERE) if not os.environ.get("VERIF_EVIDENCE_DIR") else path
 
 
 def write_evidence(pid, tier, seed, mod, merged, wall, nviol, extra):
-    os.makedirs(os.path.join(HERE, "evidence"), exist_ok=True)
+    os.makedirs(_outdir("evidence"), exist_ok=True)
     cov = {
         "evaluations": merged["evaluations"],
         "distinct_nontrivial": len(merged["nontrivial"]),
@@ -324,7 +331,7 @@ def write_evidence(pid, tier, seed, mod, merged, wall, nviol, extra):
         "wall_s": round(wall, 2),
         "violations": nviol,
     }
-    path = os.path.join(HERE, "evidence", f"{pid}.json")
+    path = os.path.join(_outdir("evidence"), f"{pid}.json")
     with open(path, "w") as fh:
         json.dump(ev, fh, indent=1, default=_default, sort_keys=True)
         fh.write("\n")
